@@ -60,14 +60,7 @@ func runMain(m *testing.M) int {
 	return code
 }
 
-func freeAddr() string {
-	ln, err := hx.Listen("tcp", "127.0.0.1:0")
-	if err != nil {
-		panic(err)
-	}
-	defer ln.Close()
-	return ln.Addr().String()
-}
+func freeAddr() string { return hx.FreeAddr() }
 
 type proc struct {
 	cmd    *exec.Cmd
